@@ -88,7 +88,7 @@ def judge_result(res, driver, kind, out, cmd, result, strict, case, who, others=
     if isinstance(result, BaseException):
         result = ("raised", type(result).__name__, str(result)[:60])
     if isinstance(result, tuple) and result and result[0] == "raised":
-        if result[1] == "UnsupportedFrameTypeError" and driver == "hasseb" and kind in ("q24", "c24"):
+        if result[1] == "UnsupportedFrameTypeError" and driver in ("hasseb", "daliserver") and kind in ("q24", "c24"):
             return "refused"
         if result[1] == "TimeoutError" and driver in ("luba", "sci") and not strict:
             return "timeout"
@@ -314,7 +314,7 @@ def run_shard(shard):
                     o = judge_result(res, "daliserver", kind, out, cmd, r, True, case, "sync")
                     outs.add(("daliserver", kind, out, o))
                     res["evaluations"] += 1
-                    if len(log) != (2 if cmd.sendtwice else 1):
+                    if o != "refused" and len(log) != (2 if cmd.sendtwice else 1):
                         add_violation(res, f"C16:daliserver:{kind}:transmissions", f"{len(log)} packets for sendtwice={cmd.sendtwice}", case)
                 if out[0] != "err" and kind not in ():
                     cmd, r, log = run_atx(kind, out)
